@@ -2,53 +2,34 @@ package main
 
 import (
 	"fmt"
-	"strings"
+	"os"
+	"strconv"
+	"time"
 
 	"github.com/ajitpratap0/GoSQLX/pkg/gosqlx"
-	"verif/internal/astdump"
+	"github.com/ajitpratap0/GoSQLX/pkg/linter"
+	"github.com/ajitpratap0/GoSQLX/pkg/linter/rules/whitespace"
+	"github.com/ajitpratap0/GoSQLX/pkg/sql/security"
+	"verif/internal/costmeas"
 )
 
 func main() {
-	for _, s := range []string{
-		"MERGE INTO t USING (SELECT a FROM u) AS s ON t.a = s.a WHEN MATCHED THEN DELETE",
-		"CREATE VIEW v AS WITH c AS (SELECT 1) SELECT * FROM c",
-		"CREATE MATERIALIZED VIEW mv (a, b) AS SELECT 1, 2",
-		"CREATE TABLE t (a INT REFERENCES s.o (x))",
-		"CREATE TABLE t (a INT, FOREIGN KEY (a) REFERENCES s.o (x))",
-		"CREATE TABLE t (a INT CONSTRAINT nn NOT NULL)",
-		"CREATE TABLE t (a TIMESTAMP DEFAULT CURRENT_TIMESTAMP)",
-		"CREATE TABLE t (a INT DEFAULT (1 + 2))",
-		"CREATE TABLE t (a INT DEFAULT -1)",
-		"CREATE TABLE t (a INT DEFAULT 1 + 2)",
-		"CREATE TABLE t (a NUMERIC(10, 2))",
-		"CREATE TABLE t (a DOUBLE PRECISION)",
-		"CREATE TABLE t (a TIMESTAMP WITH TIME ZONE)",
-		"CREATE TABLE t (a INT[])",
-		"CREATE TABLE t (a VARCHAR)",
-		"CREATE TABLE t (a INT PRIMARY KEY AUTO_INCREMENT)",
-		"CREATE TABLE t (a INT GENERATED ALWAYS AS IDENTITY)",
-		"CREATE TABLE t (a INT) PARTITION BY RANGE (a)",
-		"CREATE TABLE s.t AS SELECT 1",
-		"CREATE INDEX ix ON t (a NULLS FIRST)",
-		"CREATE INDEX ix ON t ((a + 1))",
-		"CREATE INDEX CONCURRENTLY ix ON t (a)",
-		"CREATE INDEX ON t (a)",
-		"DROP TABLE t, u",
-		"DROP SCHEMA s",
-		"DROP INDEX CONCURRENTLY ix",
-		"TRUNCATE ONLY t",
-		"MERGE INTO t USING s ON t.a = s.a WHEN NOT MATCHED BY TARGET THEN INSERT VALUES (1)",
-		"MERGE INTO t USING s ON t.a = s.a WHEN NOT MATCHED THEN INSERT DEFAULT VALUES",
-		"MERGE INTO t USING s ON t.a = s.a WHEN MATCHED THEN UPDATE SET a = 1 WHERE t.b > 0",
-		"MERGE INTO t USING s ON t.a = s.a WHEN MATCHED THEN DO NOTHING",
-		"ALTER TABLE t ADD CONSTRAINT pk PRIMARY KEY (a)",
-	} {
-		t, err := gosqlx.Parse(s)
-		if err != nil {
-			e := strings.Split(err.Error(), "\n")[0]
-			fmt.Printf("REJECT %-90s %s\n", s, e[strings.Index(e, "column 0:")+9:])
-			continue
-		}
-		fmt.Printf("ok     %-90s %s\n", s, astdump.Dump(t.Statements))
+	n, _ := strconv.Atoi(os.Args[2])
+	in, err := costmeas.Render(os.Args[1], "", n)
+	if err != nil {
+		panic(err)
 	}
+	step := func(name string, f func()) {
+		t0 := time.Now()
+		f()
+		fmt.Printf("%-22s %8.2fs\n", name, time.Since(t0).Seconds())
+	}
+	fmt.Println(os.Args[1], len(in))
+	step("parse", func() { _, err := gosqlx.Parse(in); fmt.Print(err != nil, " ") })
+	step("format", func() { _, _ = gosqlx.Format(in, gosqlx.FormatOptions{}) })
+	step("recovery", func() { _, _ = gosqlx.ParseWithRecovery(in) })
+	step("scansql", func() { _ = security.NewScanner().ScanSQL(in) })
+	step("lint L001+L010", func() {
+		_ = linter.New(whitespace.NewTrailingWhitespaceRule(), whitespace.NewRedundantWhitespaceRule()).LintString(in, "x.sql")
+	})
 }
